@@ -123,6 +123,15 @@ CHECKS["C13"] = dict(
          "is closed rather than held. One fixed defect and one known finding (half-closeable connectionLost).",
     note=_DIL_NOTE, ref="6/C13")
 
+CHECKS["C16"] = dict(
+    text="The real TrafficTimer and the Manager's ping/pong/timer code run on a symbolic clock (instants and the ping interval are z3 Reals, every pong latency a Real "
+         ">= 0 or 'never'): for every interval and every latency < interval the leader never disconnects and keeps pinging; if pongs stop after a solver-chosen ping "
+         "the connection is dropped no later than the second timer expiry after the last answered ping and in under three intervals; after loss no timer is active and "
+         "no ping is sent however much time passes, monitoring resumes on the next connection; a follower never pings.",
+    note="symbolic clock symrun/clock.py; Connector and the selected connection replaced by inert/recording stubs; first 7/10 timer-or-pong events after a connection; "
+         "pongs arrive in ping order.",
+    ref="6/C16")
+
 NOT_YET = {}
 
 NA = {}
